@@ -1,6 +1,9 @@
 use crate::engine::core::wal::wal_archiver::WalArchiver;
+use crate::engine::core::wal::wal_entry::WalEntry;
 use crate::shared::config::CONFIG;
-use std::path::PathBuf;
+use std::fs::File;
+use std::io::{BufRead, BufReader, ErrorKind};
+use std::path::{Path, PathBuf};
 use tracing::{error, info, warn};
 
 /// Responsible for cleaning up obsolete WAL log files after successful segment flushes.
@@ -116,5 +119,109 @@ impl WalCleaner {
                 );
             }
         }
+    }
+
+    /// Deletes the WAL logs whose entries are all covered by a published segment.
+    ///
+    /// WAL log ids and segment ids are unrelated (logs rotate by entry count, segments by
+    /// memtable rotation), so eligibility is decided from the content of each log: event ids
+    /// increase in apply order within a shard, hence a log is obsolete once every entry in it
+    /// has an id <= the highest id of the memtable that was just flushed.
+    /// The highest-numbered log is never touched: the WAL writer has it open.
+    /// In conservative mode, archives the logs first and deletes nothing if archiving failed.
+    pub fn cleanup_flushed(&self, max_flushed_event_id: u64) {
+        let mut logs: Vec<(u64, PathBuf)> = match std::fs::read_dir(&self.wal_dir) {
+            Ok(entries) => entries
+                .flatten()
+                .filter_map(|entry| {
+                    let name = entry.file_name().to_string_lossy().to_string();
+                    let id = name
+                        .strip_prefix("wal-")
+                        .and_then(|s| s.strip_suffix(".log"))
+                        .and_then(|n| n.parse::<u64>().ok())?;
+                    Some((id, entry.path()))
+                })
+                .collect(),
+            Err(e) => {
+                warn!(
+                    target: "wal_cleaner::cleanup_flushed",
+                    shard_id = self.shard_id,
+                    wal_dir = %self.wal_dir.display(),
+                    error = %e,
+                    "Failed to read WAL directory"
+                );
+                return;
+            }
+        };
+        logs.sort();
+        logs.pop(); // the active log
+
+        let obsolete: Vec<(u64, PathBuf)> = logs
+            .into_iter()
+            .filter(|(_, path)| Self::is_fully_flushed(path, max_flushed_event_id))
+            .collect();
+
+        let conservative_mode = CONFIG.wal.conservative_mode;
+        if conservative_mode {
+            let archiver = WalArchiver::new(self.shard_id);
+            for (id, path) in &obsolete {
+                if let Err(e) = archiver.archive_log(*id) {
+                    error!(
+                        target: "wal_cleaner::cleanup_flushed",
+                        shard_id = self.shard_id,
+                        ?path,
+                        error = %e,
+                        "WAL file failed to archive, skipping cleanup to preserve data"
+                    );
+                    return;
+                }
+            }
+        }
+
+        for (id, path) in obsolete {
+            match std::fs::remove_file(&path) {
+                Ok(_) => info!(
+                    target: "wal_cleaner::cleanup_flushed",
+                    shard_id = self.shard_id,
+                    ?path,
+                    deleted_id = id,
+                    max_flushed_event_id,
+                    conservative_mode,
+                    "Deleted obsolete WAL file"
+                ),
+                Err(e) => warn!(
+                    target: "wal_cleaner::cleanup_flushed",
+                    shard_id = self.shard_id,
+                    ?path,
+                    deleted_id = id,
+                    error = %e,
+                    "Failed to delete WAL file"
+                ),
+            }
+        }
+    }
+
+    /// True if every entry that WAL recovery would replay from `path` has a known
+    /// (non-zero) event id <= `max_flushed_event_id`. Lines that recovery skips
+    /// (invalid JSON / invalid UTF-8) are ignored; any other read error keeps the file.
+    fn is_fully_flushed(path: &Path, max_flushed_event_id: u64) -> bool {
+        let Ok(file) = File::open(path) else {
+            return false;
+        };
+        for line in BufReader::new(file).lines() {
+            match line {
+                Ok(line) => {
+                    if let Ok(entry) = serde_json::from_str::<WalEntry>(&line) {
+                        let id = entry.event_id.raw();
+                        if id == 0 || id > max_flushed_event_id {
+                            return false;
+                        }
+                    }
+                }
+                Err(e) if e.kind() == ErrorKind::InvalidData => {}
+                Err(_) => return false,
+            }
+        }
+        true
     }
 }
